@@ -298,3 +298,8 @@ func (p c15) Run(par *fw.Parent) *fw.Result {
 	}
 	return merged
 }
+
+// Replay re-runs the seed-determined set of processes and histories.
+func (p c15) Replay(par *fw.Parent, v *fw.Violation) int {
+	return replayWhole(par, p.Run(par), v)
+}
